@@ -44,7 +44,7 @@ def run(ctx) -> None:
     ctx.rule("R5", "prerequisite: replacements never overlap - matches are enumerated completely and an overlapping later match is suppressed (C03/R3), spans applied right to left (C03/R1)")
     ctx.rule("R6", "prerequisite: 'the character spans matched by configured patterns' are occurrences of the configured text - literal pattern text matches only itself (C07/R1)")
     from sa.report import run_prerequisite as _rp6
-    _rp6(ctx, "C07", ("R1",), "R6")
+    _rp6(ctx, "C07", ("R1", "R3"), "R6")          # R3: what is compiled is the escaped text itself (no later edit of the regex)
     from sa.report import run_prerequisite
     run_prerequisite(ctx, "C03", ("R1", "R3"), "R5")
     run_prerequisite(ctx, "C03", ("R6",), "R4", only=lambda key: "glob" in key)          # "files not named by the configuration are never touched": a glob matches what its text names
